@@ -11,6 +11,7 @@ MODULES = [
     "context",
     "resource_tracker",
     "cloudpickle_wrapper",
+    "launch",
     "properties",
 ]
 
